@@ -39,6 +39,17 @@ import (
 // objects, compared with a reference model of "what gets saved".
 // Part S: 2-3 threads running short programs of the same operations under the
 // controlled scheduler.
+//
+// Cancellation while a Save is in flight (both parts): a cancellation can land
+// before or after every writer step of the Save path (SetINITVoteproof,
+// SetACCEPTVoteproof, Save), through the context given to Save ("cctx") or
+// through Cancel() of the held processor ("cproc"). A cancellation landing after
+// the writer's Save has written leaves the block in the ledger and makes the
+// writer return context.Canceled. Part Q performs the scripted cancellation inside
+// the writer step and lets the step wait for its own context, as a context-aware
+// step would; in part S another thread cancels and the scheduler decides where it
+// lands. Every continuation of the menu follows (same height next round, lower
+// height, next height).
 
 type c11fact struct {
 	name     string
@@ -80,6 +91,38 @@ type c11env struct {
 	direct   *DefaultProposalProcessor // direct flavour: the processor driven without ProposalProcessors
 	directP  int                       // direct flavour: Process calls made
 	panics   []string                  // Q part: panics of Save
+
+	// cancellation in flight
+	saveCtx      context.Context   // the cancellable context given to Save (Q: cctx route; S: "Sc" operations)
+	saveCancel   func()            // cancels saveCtx
+	held         ProposalProcessor // the processor a caller took from Processor() / was given before Save started
+	heldSet      bool              // S part: a Process operation has returned (held may be nil)
+	cancelPoints bool              // S part: scenario with a canceller thread: the writer steps are scheduling points and read their context
+	wcanceled    int               // blocks written by a Save call of the writer / stub that then returned context.Canceled
+}
+
+// c11CancelAnswers: Q part, real / direct flavours: route.site.when
+var c11CancelAnswers = func() []string {
+	var l []string
+
+	for _, route := range []string{"cctx", "cproc"} {
+		for _, site := range []string{"init", "accept", "save"} {
+			for _, when := range []string{"pre", "post"} {
+				l = append(l, route+"."+site+"."+when)
+			}
+		}
+	}
+
+	return l
+}()
+
+func c11IsCancelAnswer(a string) bool {
+	return strings.HasPrefix(a, "cctx.") || strings.HasPrefix(a, "cproc.")
+}
+
+// c11WrittenThenCanceled: the answer lets the block be written and the Save call return context.Canceled
+func c11WrittenThenCanceled(a string) bool {
+	return a == "wcancel" || (c11IsCancelAnswer(a) && strings.HasSuffix(a, ".save.post"))
 }
 
 // c11Fault: the scripted answer of a writer / operation call: a plain error, or one
@@ -292,18 +335,76 @@ func (w *c11writer) Manifest(context.Context, base.Manifest) (base.Manifest, err
 	return w.manifest, nil
 }
 
-func (*c11writer) SetINITVoteproof(context.Context, base.INITVoteproof) error { return nil }
+// cancelLands: the place before / after a writer step of the Save path where a
+// cancellation can land. Q part: the scripted cancellation (route.site.when) is
+// performed here, by the route it names, and the step then waits until its own
+// context - the one DefaultProposalProcessor.Save derived - is done, as a
+// context-aware step does. S part (scenarios with a canceller thread): a
+// scheduling point, then the step reads its context. Elsewhere: nothing.
+func (w *c11writer) cancelLands(ctx context.Context, site, when string) error {
+	e := w.env
 
-func (w *c11writer) SetACCEPTVoteproof(_ context.Context, avp base.ACCEPTVoteproof) error {
-	w.avp = avp
+	if e.cancelPoints {
+		if site != "save" || when != "pre" { // Save's entry is a point already
+			vsched.Point("writer."+site+"."+when, nil)
+		}
 
-	return nil
+		if err := ctx.Err(); err != nil {
+			e.calls = append(e.calls, e.op()+":canceled@"+site+"."+when+"("+w.fact.name+")")
+
+			return err
+		}
+
+		return nil
+	}
+
+	a := e.answers["save"]
+	if !c11IsCancelAnswer(a) || !strings.HasSuffix(a, "."+site+"."+when) {
+		return nil
+	}
+
+	delete(e.answers, "save")
+	e.calls = append(e.calls, e.op()+":"+a+"("+w.fact.name+")")
+
+	switch {
+	case strings.HasPrefix(a, "cctx."):
+		e.saveCancel()
+	default:
+		_ = e.held.Cancel()
+	}
+
+	<-ctx.Done()
+
+	return ctx.Err()
 }
 
-func (w *c11writer) Save(context.Context) (base.BlockMap, error) {
+func (w *c11writer) SetINITVoteproof(ctx context.Context, _ base.INITVoteproof) error {
+	if err := w.cancelLands(ctx, "init", "pre"); err != nil {
+		return err
+	}
+
+	return w.cancelLands(ctx, "init", "post")
+}
+
+func (w *c11writer) SetACCEPTVoteproof(ctx context.Context, avp base.ACCEPTVoteproof) error {
+	if err := w.cancelLands(ctx, "accept", "pre"); err != nil {
+		return err
+	}
+
+	w.avp = avp
+
+	return w.cancelLands(ctx, "accept", "post")
+}
+
+func (w *c11writer) Save(ctx context.Context) (base.BlockMap, error) {
 	vsched.Point("writer.Save", nil)
 
-	if w.env.take("save") == "err" {
+	if err := w.cancelLands(ctx, "save", "pre"); err != nil {
+		return nil, err
+	}
+
+	if w.env.answers["save"] == "err" {
+		delete(w.env.answers, "save")
 		w.env.calls = append(w.env.calls, w.env.op()+":writer-save-failed("+w.fact.name+")")
 
 		return nil, errors.Errorf("c11: writer save failed")
@@ -323,6 +424,13 @@ func (w *c11writer) Save(context.Context) (base.BlockMap, error) {
 
 	w.env.saved = append(w.env.saved, s)
 	w.env.calls = append(w.env.calls, w.env.op()+":SAVED("+w.fact.name+")")
+
+	// NOTE the block is written; what follows in a real writer can still be canceled
+	if err := w.cancelLands(ctx, "save", "post"); err != nil {
+		w.env.wcanceled++
+
+		return nil, err
+	}
 
 	return nil, nil
 }
@@ -363,8 +471,17 @@ func (s *c11stub) Process(context.Context, base.INITVoteproof) (base.Manifest, e
 	return base.NewDummyManifest(s.fact.point.Height(), s.fact.manifest), nil
 }
 
-func (s *c11stub) Save(_ context.Context, avp base.ACCEPTVoteproof) (base.BlockMap, error) {
+// canceledNow: S part, scenarios with a canceller thread: the stub reads the
+// context it was given and its own Cancel() flag, as DefaultProposalProcessor's
+// derived context carries both.
+func (s *c11stub) canceledNow(ctx context.Context) bool {
+	return s.env.cancelPoints && (ctx.Err() != nil || s.canceled)
+}
+
+func (s *c11stub) Save(ctx context.Context, avp base.ACCEPTVoteproof) (base.BlockMap, error) {
 	vsched.Point("stub.Save", nil)
+
+	var wcancel bool
 
 	switch s.env.take("save") {
 	case "err":
@@ -372,6 +489,14 @@ func (s *c11stub) Save(_ context.Context, avp base.ACCEPTVoteproof) (base.BlockM
 
 		return nil, errors.Errorf("c11: save failed")
 	case "cancel":
+		s.env.calls = append(s.env.calls, s.env.op()+":stub-save-canceled("+s.fact.name+")")
+
+		return nil, context.Canceled
+	case "wcancel": // written, then canceled
+		wcancel = true
+	}
+
+	if s.canceledNow(ctx) {
 		s.env.calls = append(s.env.calls, s.env.op()+":stub-save-canceled("+s.fact.name+")")
 
 		return nil, context.Canceled
@@ -383,6 +508,17 @@ func (s *c11stub) Save(_ context.Context, avp base.ACCEPTVoteproof) (base.BlockM
 		avpHeight: avp.Point().Height(), avpProposal: avp.BallotMajority().Proposal(), avpNewBlock: avp.BallotMajority().NewBlock(),
 	})
 	s.env.calls = append(s.env.calls, s.env.op()+":SAVED("+s.fact.name+")")
+
+	if s.env.cancelPoints {
+		vsched.Point("stub.Save.post", nil)
+	}
+
+	if wcancel || s.canceledNow(ctx) {
+		s.env.wcanceled++
+		s.env.calls = append(s.env.calls, s.env.op()+":stub-save-canceled-after-written("+s.fact.name+")")
+
+		return nil, context.Canceled
+	}
 
 	return nil, nil
 }
@@ -434,13 +570,33 @@ func (e *c11env) avp(name string, match bool) base.ACCEPTVoteproof {
 	return vp
 }
 
+// saveContext: the context of one Save call of the Q part. Only a scripted cctx
+// cancellation needs a cancellable one; every other call gets
+// context.Background(), as voteproofHandler.saveBlock passes.
+func (e *c11env) saveContext() (context.Context, func()) {
+	if !strings.HasPrefix(e.answers["save"], "cctx.") {
+		e.saveCtx, e.saveCancel = nil, nil
+
+		return context.Background(), func() {}
+	}
+
+	e.saveCtx, e.saveCancel = context.WithCancel(context.Background())
+
+	return e.saveCtx, e.saveCancel
+}
+
 func (e *c11env) save(name string, match bool) string {
 	f := e.facts[name]
-	n := len(e.saved)
+	n, wc := len(e.saved), e.wcanceled
 
 	var err error
 
-	if panicked, msg := vlib.Catch(func() { _, err = e.pps.Save(context.Background(), f.hash, e.avp(name, match)) }); panicked {
+	ctx, release := e.saveContext()
+	defer release()
+
+	e.held = e.pps.Processor() // taken before Save starts, as the demonstration of the cproc route does
+
+	if panicked, msg := vlib.Catch(func() { _, err = e.pps.Save(ctx, f.hash, e.avp(name, match)) }); panicked {
 		e.panics = append(e.panics, msg)
 
 		return "save:panic"
@@ -451,6 +607,10 @@ func (e *c11env) save(name string, match bool) string {
 		return "save:saved"
 	case err == nil:
 		return "save:nil-but-nothing-saved"
+	case e.wcanceled != wc && errors.Is(err, ErrNotProposalProcessorProcessed):
+		return "save:written-then-canceled"
+	case e.wcanceled != wc:
+		return "save:written-then-canceled:error"
 	case errors.Is(err, ErrProcessorAlreadySaved):
 		return "save:already-saved"
 	case errors.Is(err, ErrNotProposalProcessorProcessed):
@@ -588,7 +748,8 @@ func (m *c11model) apply(ev c11event) {
 
 		switch {
 		case m.flavour == "real" && (m.dead || !m.hasM || !ev.match):
-			return
+			return // the writer's Save path is not entered
+		case c11WrittenThenCanceled(ev.answer): // the block is in the ledger although Save reports a cancellation
 		case ev.answer != "":
 			return
 		}
@@ -628,13 +789,21 @@ func (ev c11event) id() string {
 	return s
 }
 
-func c11Events(flavour string, nfacts int) []c11event {
+// c11Events: the event menu of a search. Searches: real, stub, direct as the
+// flavours; realc = the real flavour with the cancellation menu (Process without
+// faults; Save matching / mismatching / writer error / a cancellation landing before
+// or after each writer step of the Save path by either route; Cancel), a search of
+// its own so that the cancellations are not multiplied with the 8 process faults.
+func c11Events(search string, nfacts int) []c11event {
 	var evs []c11event
+
+	flavour := search
 
 	for _, f := range c11FactNames[:nfacts] {
 		evs = append(evs, c11event{kind: "P", fact: f})
 
 		switch flavour {
+		case "realc":
 		case "stub":
 			evs = append(evs, c11event{kind: "P", fact: f, answer: "err"}, c11event{kind: "P", fact: f, answer: "ign"})
 		default: // processing stops in the operation, at SetStates, at SetProcessResult or at Manifest: the writer exists, no manifest
@@ -647,8 +816,14 @@ func c11Events(flavour string, nfacts int) []c11event {
 			c11event{kind: "S", fact: f, match: true}, c11event{kind: "S", fact: f, match: false},
 			c11event{kind: "S", fact: f, match: true, answer: "err"})
 
-		if flavour == "stub" {
-			evs = append(evs, c11event{kind: "S", fact: f, match: true, answer: "cancel"})
+		switch flavour {
+		case "stub": // canceled before / after the stub wrote
+			evs = append(evs, c11event{kind: "S", fact: f, match: true, answer: "cancel"}, c11event{kind: "S", fact: f, match: true, answer: "wcancel"})
+		case "real":
+		default: // realc, direct: a cancellation lands before / after a writer step of the Save path, by either route
+			for _, a := range c11CancelAnswers {
+				evs = append(evs, c11event{kind: "S", fact: f, match: true, answer: a})
+			}
 		}
 	}
 
@@ -747,11 +922,18 @@ func c11qRunDirect(path []c11event) (vios []c11vio, obs, key string) {
 				e.answers["save"] = ev.answer
 			}
 
-			n := len(e.saved)
+			n, wc := len(e.saved), e.wcanceled
 
 			var err error
 
-			if panicked, msg := vlib.Catch(func() { _, err = p.Save(context.Background(), e.avp("F1a", ev.match)) }); panicked {
+			ctx, release := e.saveContext()
+			e.held = p
+
+			panicked, msg := vlib.Catch(func() { _, err = p.Save(ctx, e.avp("F1a", ev.match)) })
+
+			release()
+
+			if panicked {
 				obs = "save:panic"
 				e.panics = append(e.panics, msg)
 
@@ -763,6 +945,8 @@ func c11qRunDirect(path []c11event) (vios []c11vio, obs, key string) {
 				obs = "save:saved"
 			case err == nil:
 				obs = "save:nil-but-nothing-saved"
+			case e.wcanceled != wc && errors.Is(err, context.Canceled):
+				obs = "save:written-then-canceled"
 			case len(e.saved) != n:
 				obs = "save:error-but-saved"
 			case errors.Is(err, ErrProcessorAlreadySaved):
@@ -803,22 +987,27 @@ func c11PathDevs(path []c11event) int {
 	return n
 }
 
-func c11PartQ(r *vlib.Run, flavour string) {
+func c11PartQ(r *vlib.Run, search string) {
 	nfacts := vlib.Pick(r, 3, 4)
 	depth := vlib.Pick(r, 4, 6)
+
+	flavour := search
+	if search == "realc" {
+		flavour = "real"
+	}
 
 	if flavour == "direct" {
 		nfacts = 1
 	}
 
-	events := c11Events(flavour, nfacts)
+	events := c11Events(search, nfacts)
 
 	r.Set("q_depth", depth)
 
 	if flavour != "direct" {
 		r.Set("q_proposals", nfacts)
 	}
-	r.Set("q_events_"+flavour, len(events))
+	r.Set("q_events_"+search, len(events))
 
 	type state struct{ path []c11event }
 
@@ -836,7 +1025,7 @@ func c11PartQ(r *vlib.Run, flavour string) {
 
 		for _, st := range frontier {
 			if r.Expired() {
-				r.Cap(fmt.Sprintf("deadline in Q search %s at level %d", flavour, level))
+				r.Cap(fmt.Sprintf("deadline in Q search %s at level %d", search, level))
 
 				return
 			}
@@ -852,7 +1041,7 @@ func c11PartQ(r *vlib.Run, flavour string) {
 					ids[i] = path[i].id()
 				}
 
-				id := "q/" + flavour + "/" + strings.Join(ids, "/")
+				id := "q/" + search + "/" + strings.Join(ids, "/")
 				if !r.WantPrefix(id) {
 					continue
 				}
@@ -878,7 +1067,7 @@ func c11PartQ(r *vlib.Run, flavour string) {
 
 					for _, v := range vios {
 						r.Outcome("violation:" + fmt.Sprint(v.sig["kind"]))
-						r.Violation(id, v.sig, v.detail, map[string]any{"flavour": flavour, "events": ids})
+						r.Violation(id, v.sig, v.detail, map[string]any{"flavour": search, "events": ids})
 					}
 				}
 
@@ -903,13 +1092,21 @@ func c11PartQ(r *vlib.Run, flavour string) {
 // ---------------------------------------------------------------- part S
 
 type c11op struct {
-	kind   string // P | S | C
+	kind   string // P | S | C | K (cancel the context of the Sc saves) | KP (Cancel() of the processor held since the last Process returned)
 	fact   string
 	match  bool
 	answer string // P: what the writer's Manifest (real) / the stub's Process answers: "" ok | err | ign
+	ctx    bool   // S: Save is given the scenario's cancellable context ("Sc") instead of context.Background()
 }
 
 func (o c11op) id() string {
+	switch {
+	case o.kind == "K", o.kind == "KP":
+		return o.kind
+	case o.kind == "S" && o.ctx:
+		return "Sc" + c11event{kind: o.kind, fact: o.fact, match: o.match, answer: o.answer}.id()[1:]
+	}
+
 	return c11event{kind: o.kind, fact: o.fact, match: o.match, answer: o.answer}.id()
 }
 
@@ -941,6 +1138,10 @@ func (c c11scfg) kinds() string {
 		s := ""
 		for _, o := range t {
 			s += o.kind
+
+			if o.ctx {
+				s += "c"
+			}
 		}
 
 		ks = append(ks, s)
@@ -955,6 +1156,18 @@ func c11sBuild(c c11scfg) vsched.Scenario {
 	e := c11NewEnv(c.flavour, 3, false)
 	e.opOf = map[int]string{}
 	results := make([][]string, len(c.threads))
+
+	for _, t := range c.threads {
+		for _, o := range t {
+			if o.kind == "K" || o.kind == "KP" {
+				e.cancelPoints = true
+			}
+		}
+	}
+
+	if e.cancelPoints {
+		e.saveCtx, e.saveCancel = vctx.WithCancel(context.Background())
+	}
 
 	var roots []func()
 
@@ -975,8 +1188,31 @@ func c11sBuild(c c11scfg) vsched.Scenario {
 					}
 
 					res = e.process(o.fact)
+
+					if e.cancelPoints { // the caller keeps the processor, as a holder of Processor() does
+						e.held, e.heldSet = e.pps.Processor(), true
+					}
 				case "S":
-					res = e.saveConcurrent(o.fact, o.match)
+					ctx := context.Background()
+					if o.ctx {
+						ctx = e.saveCtx
+					}
+
+					res = e.saveConcurrent(ctx, o.fact, o.match)
+				case "K":
+					res = "cancel-ctx"
+
+					e.saveCancel() // a scheduling point (vctx)
+				case "KP":
+					res = "cancel-held:none"
+
+					vsched.Point("cancel-held", func() bool { return e.heldSet })
+
+					if p := e.held; p != nil {
+						res = "cancel-held"
+
+						_ = p.Cancel()
+					}
 				case "C":
 					res = "cancel:ok"
 
@@ -1031,9 +1267,10 @@ func c11sBuild(c c11scfg) vsched.Scenario {
 				}
 			}
 
-			if n != len(e.saved) {
+			// (a block written by a writer Save call that then returned context.Canceled is in the ledger, and Save reports the cancellation)
+			if n+e.wcanceled != len(e.saved) {
 				return fail(c11vio{map[string]any{"kind": "save-results-differ-from-saved-blocks", "flavour": c.flavour},
-					fmt.Sprintf("%d Save calls returned nil, %d blocks saved | calls: %s", n, len(e.saved), strings.Join(e.calls, " "))})
+					fmt.Sprintf("%d Save calls returned nil, %d written and then canceled, %d blocks saved | calls: %s", n, e.wcanceled, len(e.saved), strings.Join(e.calls, " "))})
 			}
 
 			return nil
@@ -1042,10 +1279,10 @@ func c11sBuild(c c11scfg) vsched.Scenario {
 }
 
 // saveConcurrent: Save's result only (the save log is shared by the threads).
-func (e *c11env) saveConcurrent(name string, match bool) string {
+func (e *c11env) saveConcurrent(ctx context.Context, name string, match bool) string {
 	f := e.facts[name]
 
-	_, err := e.pps.Save(context.Background(), f.hash, e.avp(name, match))
+	_, err := e.pps.Save(ctx, f.hash, e.avp(name, match))
 
 	switch {
 	case err == nil:
@@ -1100,6 +1337,28 @@ func c11Scenarios(thorough bool) []c11scfg {
 		{T(P("F1a"), C, P("F1a"), S("F1a")), T(S("F1a"))},
 	}
 
+	// a cancellation in flight: the canceller thread cancels the context of the first Save (K) or the
+	// processor held since Process returned (KP) at any point of T1's program; the writer steps of the
+	// Save path are scheduling points and read their context. Then the continuations: same height next
+	// round, lower height, next height.
+	Sc := func(f string) c11op { return c11op{kind: "S", fact: f, match: true, ctx: true} }
+	K, KP := c11op{kind: "K"}, c11op{kind: "KP"}
+
+	var cancelSmall, cancelCont, cancel3 [][][]c11op
+
+	for _, k := range []c11op{K, KP} {
+		cancelSmall = append(cancelSmall, [][]c11op{T(P("F1a"), Sc("F1a")), T(k)})
+		cancelCont = append(cancelCont,
+			[][]c11op{T(P("F1a"), Sc("F1a"), P("F1b"), S("F1b")), T(k)},
+			[][]c11op{T(P("F2a"), Sc("F2a"), P("F1a"), S("F1a")), T(k)},
+			[][]c11op{T(P("F1a"), Sc("F1a"), P("F2a"), S("F2a")), T(k)},
+		)
+		cancel3 = append(cancel3,
+			[][]c11op{T(P("F1a"), Sc("F1a")), T(k), T(P("F1b"), S("F1b"))},
+			[][]c11op{T(P("F1a"), Sc("F1a"), P("F1b"), Sc("F1b")), T(k), T(C)},
+		)
+	}
+
 	var cfgs []c11scfg
 
 	add := func(fl string, shapes [][][]c11op, bound int) {
@@ -1115,11 +1374,20 @@ func c11Scenarios(thorough bool) []c11scfg {
 		add("stub", small, 2)
 		add("stub", large, 2)
 		add("stub", huge, 2)
+		add("real", cancelSmall, 2)
+		add("real", cancelCont, 1)
+		add("stub", cancelSmall, 3)
+		add("stub", cancelCont, 2)
+		add("stub", cancel3, 2)
 	default:
 		add("real", small, 1)
 		add("stub", small, 2)
 		add("stub", large, 1)
 		add("stub", huge[:2], 1)
+		add("real", cancelSmall, 1) // the real-flavour continuations (40-100 thousand executions each): thorough tier; quick: part Q and the stub flavour
+		add("stub", cancelSmall, 2)
+		add("stub", cancelCont, 2)
+		add("stub", cancel3, 1)
 	}
 
 	return cfgs
@@ -1233,7 +1501,7 @@ func TestVerifC11(t *testing.T) {
 		c11PartS(r)
 	}
 
-	for _, fl := range []string{"real", "stub", "direct"} {
+	for _, fl := range []string{"real", "stub", "direct", "realc"} {
 		item++
 
 		if rp && !strings.HasPrefix(rid, "q/"+fl+"/") {
